@@ -675,7 +675,89 @@ class C12(Prop):
                 # correspondence of error category for the checked slice iterator is implicit in END/E
 
 
-REGISTRY = {"C02": C02(), "C20": C20(), "C09": C09(), "C10": C10(), "C14": C14(), "C12": C12()}
+# ------------------------------------------------------------------------------------------
+# C05
+
+class C05(Prop):
+    rule = ("values of the serde data model generated from one PRNG state (all integer widths incl. 128-bit, f64/f32 incl. non-finite, chars, "
+            "strings of every length 0..260 with escapables/multi-byte characters at random positions, bytes, options, sequences, tuples, maps "
+            "with string/integer/bool/char/float/invalid keys, structs, all four variant shapes, nesting <= 5); every value goes through "
+            "to_vec, to_string, to_writer on Vec / BytesMut writer / BufferedWriter / io::BufWriter (default and 7-byte capacity), the pretty "
+            "variants, and a sink failing after n bytes for 5-7 values of n; non-trivial = the value contains a string needing an escape, a "
+            "container or a float")
+    trusted = ["itoa/ryu texts are carried as bytes: integers are compared with Rust's own Display, floats by value (Spec.f64Bits of the text)",
+               "the driver re-parses the implementation's output with Spec.docTree and re-renders it with the proved serializer model"]
+    assumptions = ["serde's Serialize side is the harness' own enum (one constructor per serializer method)"]
+
+    def explore(self, ctx, res):
+        name = "c05"
+        cases_path = generate(ctx, name)
+        impl_path = cases_path + ".impl"
+        rc, err = ctx["run_lines"](ctx["vh"], [name, "run"], cases_path, impl_path)
+        with open(cases_path) as f:
+            cases = f.read().splitlines()
+        with open(impl_path, errors="replace") as f:
+            impl = f.read().splitlines()
+        if rc != 0 or len(impl) != len(cases):
+            idx = min(len(impl), len(cases) - 1)
+            res.oracle_failures.append(dict(key="c05:process-abort", case=cases[idx], detail=f"harness died after {len(impl)} cases: {err[-300:]}"))
+        n = min(len(impl), len(cases))
+        qp = cases_path + ".query"
+        parsed = []
+        with open(qp, "w") as q:
+            for i in range(n):
+                I = ctx["parse_fields"](impl[i])
+                parsed.append(I)
+                q.write(f"c05 {I.get('sv','?')} {I.get('compact','?')} {I.get('pretty','?')}\n")
+        model = None
+        if ctx["driver"]:
+            ctx["run_lines"](ctx["driver"], [], qp, qp + ".out")
+            with open(qp + ".out", errors="replace") as f:
+                model = f.read().splitlines()
+        for i in range(n):
+            res.evaluations += 1
+            case = cases[i]
+            I = parsed[i]
+            M = ctx["parse_fields"](model[i]) if model and i < len(model) else {}
+            sv = I.get("sv", "")
+            full = f"{case}  sv={sv[:300]}"
+            if len(res.samples) < 6 and i % max(1, n // 6) == 0:
+                res.samples.append({"case": case, "impl": impl[i][:300], "model": (model[i][:200] if model and i < len(model) else None)})
+            if any(ch in sv for ch in "[{VF") or "5c" in sv:
+                res.nontrivial(case)
+            if I.get("compact") == "PANIC" or impl[i] == "PANIC":
+                res.oracle_failures.append(dict(key="C05|to_vec|panic", case=full, detail="panicked"))
+                continue
+            v = M.get("verdict")
+            res.distribution["verdict=" + str(v)] += 1
+            if v is None:
+                if model is not None:
+                    res.model_disagreements.append(dict(key="c05:model-output-missing", case=full, detail=str(model[i] if i < len(model) else None)[:100]))
+            elif v not in ("ok", "ok-error"):
+                res.oracle_failures.append(dict(key=f"C05|to_vec|{v.lower()}", case=full, detail=f"{I.get('compact','')[:120]}"))
+            elif v == "ok":
+                if M.get("utf8") != "A":
+                    res.oracle_failures.append(dict(key="C05|to_vec|output-not-utf8", case=full, detail=I.get("compact", "")[:120]))
+                if M.get("prettyjson") != "A":
+                    res.oracle_failures.append(dict(key="C05|to_vec_pretty|not-json", case=full, detail=I.get("pretty", "")[:120]))
+                if M.get("compact") != "A":
+                    res.model_disagreements.append(dict(key="c05:compact-bytes-vs-serializer-model", case=full, detail=I.get("compact", "")[:120]))
+                if M.get("pretty") != "A":
+                    # pretty must be compact + prescribed indentation: the model re-renders the same value
+                    res.oracle_failures.append(dict(key="C05|to_vec_pretty|not-compact-plus-indentation", case=full, detail=I.get("pretty", "")[:160]))
+            w = I.get("writers", "")
+            if w.startswith("DIFF"):
+                for d in w[5:].split(";"):
+                    wn = d.split(":")[0]
+                    res.oracle_failures.append(dict(key=f"C05|{wn}|bytes-differ-from-to_vec", case=full, detail=d[:160]))
+            if I.get("prettywriters") == "DIFF":
+                res.oracle_failures.append(dict(key="C05|pretty-writers|bytes-differ", case=full, detail=""))
+            fl = I.get("failing", "ok")
+            if fl.startswith("BAD"):
+                res.oracle_failures.append(dict(key="C05|failing-writer|error-swallowed-or-not-a-prefix", case=full, detail=fl[:200]))
+
+
+REGISTRY = {"C05": C05(), "C02": C02(), "C20": C20(), "C09": C09(), "C10": C10(), "C14": C14(), "C12": C12()}
 for _k, _v in REGISTRY.items():
     _v.pid = _k
 
